@@ -700,8 +700,42 @@ def _merge(ctx, task, res):
         ctx.finding(Finding(PID, f["signature"], f["what"], f["detail"]))
 
 
+async def killed_before_root(ctx):
+    """The earliest kill point: after `apply_schema` (autocommit) and before the first transaction, in which
+    the root node is created.  The next start must open the database."""
+    import tempfile
+
+    from stepup.core.sqlite3 import DBSession
+    from stepup.core.workflow import Workflow
+
+    with tempfile.TemporaryDirectory() as d:
+        path = os.path.join(d, "graph.db")
+        with DBSession.open(path) as db:
+            wf = Workflow(db, dir_queue=None)
+            schema = [wf.schema()] + [s for nc in wf.node_classes.values() if (s := nc.schema()) is not None]
+            await db.apply_schema(wf.application_id, wf.schema_version, schema)  # ... killed here
+        with DBSession.open(path) as db:
+            wf = Workflow(db, dir_queue=None)
+            try:
+                await wf.initialize()
+                async with db:
+                    ok = wf.root is not None
+            except Exception as exc:  # noqa: BLE001
+                ctx.finding(Finding(PID, "restart-fails:killed-before-root-node",
+                                    f"after a kill between the creation of the tables and the first transaction every "
+                                    f"later start fails: {type(exc).__name__}: {exc}",
+                                    {"how": "harness/repro/c05_killed_before_root.py"}))
+                return
+            if not ok:
+                ctx.finding(Finding(PID, "restart-fails:killed-before-root-node", "the database has no root node after "
+                                    "the restart", {"how": "harness/repro/c05_killed_before_root.py"}))
+    ctx.stats.count("scenario:killed-before-root-node")
+
+
 async def search(ctx):
     import simpool
+
+    await killed_before_root(ctx)
 
     ncase = ctx.budget(12, 240)
     specs = [make_spec(ctx.seed, i, ctx.tier) for i in range(ncase)]
